@@ -132,6 +132,8 @@ def file_spec(task, i):
         otext, odecl = half[0] + f" {priv} - t1", dict(half[1], **{priv: "t1"})
     else:
         otext, odecl = SHARED_OBJECTS + f" {priv} - t1", dict(SHARED_DECL, **{priv: "t1"})
+    # an object of the root type, declared before the typed ones (a bare name in a typed list would take the type that follows)
+    otext, odecl = f"x{i} - object " + otext, dict({f"x{i}": "object"}, **odecl)
     fixed = [f"(p {priv})"] if task.get("private_facts", True) else []
     fl = [f for f, files in task["fluent_files"].items() if i in files and _declares(odecl, f)]
     goal = [g for g in task["goals"][i] if _declares(odecl, sexpr.render(g))]
